@@ -319,3 +319,87 @@ def _tuplify(x):
     if isinstance(x, list):
         return tuple(_tuplify(y) for y in x)
     return x
+
+
+# ---------------------------------------------------------------------------------------------
+# replay of a recorded two-process schedule with REAL interpreter processes
+# ---------------------------------------------------------------------------------------------
+CONC_CHILD = r'''
+import sys, os
+sys.path.insert(0, %(verif)r)
+sys.dont_write_bytecode = %(dwb)r
+from mc import common, cache, fsx
+out = os.fdopen(os.dup(1), 'w')
+run = fsx.RemoteRun(cache.pkts_dir(%(scratch)r), %(clock)r, %(pid)r, sys.stdin, out, %(wb)r)
+run.attach()
+mod = cache.load_factories(%(scratch)r)
+res, K = cache.define(mod, %(decl)r, %(opt)r)
+out.write('RESULT ' + common.dumps(res) + '\n')
+out.flush()
+'''
+
+
+def real_conc_replay(scratch, clock0, log, decls, opt, wb):
+    """replays the global step order `log` [(pid, op, relpath, detail) | (None,'tick',..)] with two real
+    interpreter processes held at every interposed step. Returns (results per process, error or None)."""
+    env = dict(os.environ)
+    env['PYTHONHASHSEED'] = '0'
+    env.pop('PYTHONDONTWRITEBYTECODE', None)
+    procs = []
+    for pid in (0, 1):
+        code = CONC_CHILD % {'verif': common.VERIF, 'dwb': not wb[pid], 'scratch': scratch, 'clock': clock0, 'pid': pid, 'wb': wb[pid],
+                             'decl': decls[pid], 'opt': opt}
+        procs.append(subprocess.Popen([sys.executable, '-c', code], stdin=subprocess.PIPE, stdout=subprocess.PIPE, stderr=subprocess.PIPE,
+                                      text=True, env=env, bufsize=1))
+    clock = clock0
+    results = [None, None]
+    error = None
+    pending = [None, None]
+
+    def next_line(pid):
+        while True:
+            line = procs[pid].stdout.readline()
+            if not line:
+                return None
+            if line.startswith('RESULT '):
+                results[pid] = _tuplify(common.loads(line[7:]))
+                continue
+            if line.startswith('STEP '):
+                return line.split()
+    try:
+        # both children run up to their first step and wait there
+        for pid in (0, 1):
+            pending[pid] = next_line(pid)
+        for (pid, op, path, detail) in log:
+            if pid is None:
+                clock += 1
+                continue
+            got = pending[pid]
+            want = [str(pid), op, fsx.canon_name(path or '-')]
+            if got is None or got[1:] != want:
+                error = 'real process %d is at step %r, the recorded schedule expects %r' % (pid, got and got[1:], want)
+                break
+            procs[pid].stdin.write('go %d\n' % clock)
+            procs[pid].stdin.flush()
+            # exactly one process runs at a time: wait until this one has PERFORMED the step, i.e. until it
+            # announces its next one (or finishes)
+            pending[pid] = next_line(pid)
+        for pid in (0, 1):
+            if error is None and pending[pid] is not None:
+                error = 'real process %d makes a further step %r after the recorded schedule' % (pid, pending[pid][1:])
+    finally:
+        for p in procs:
+            try:
+                p.stdin.close()
+            except Exception:
+                pass
+        for pid, p in enumerate(procs):
+            try:
+                rest = p.stdout.read()
+                for line in (rest or '').splitlines():
+                    if line.startswith('RESULT '):
+                        results[pid] = _tuplify(common.loads(line[7:]))
+                p.wait(timeout=60)
+            except Exception:
+                p.kill()
+    return results, error
